@@ -21,6 +21,9 @@ fn quote(s: &str) -> String {
     for c in s.chars() {
         match c {
             '\\' => o.push_str("\\\\"),
+            '"' => o.push_str("\\\""),
+            '\n' => o.push_str("\\n"),
+            '\r' => o.push_str("\\r"),
             c => o.push(c),
         }
     }
@@ -28,14 +31,31 @@ fn quote(s: &str) -> String {
     o
 }
 
+/// classes the property statement already names as known weaknesses of the re-serialise-and-parse path
+pub fn class_of(input: &Value) -> &'static str {
+    let args: Vec<String> = input["args"].as_array().map(|a| a.iter().map(|v| v.as_str().unwrap_or("").to_string()).collect()).unwrap_or_default();
+    if args.iter().any(|a| a.contains("${") || a.contains("%{")) { "argument-containing-variable-reference-text" }
+    else if args.iter().any(|a| a.contains('\n') || a.contains('\r')) { "argument-containing-line-break" }
+    else if args.iter().any(|a| a.contains('#')) { "argument-containing-hash" }
+    else if args.iter().any(|a| a.contains('"')) { "argument-containing-double-quote" }
+    else { "other" }
+}
+
 pub fn run(input: &Value) -> Option<Value> {
+    run_inner(input).map(|mut d| {
+        d["class"] = json!(class_of(input));
+        d
+    })
+}
+
+fn run_inner(input: &Value) -> Option<Value> {
     let args: Vec<String> = input["args"].as_array()?.iter().map(|v| v.as_str().unwrap().to_string()).collect();
     let wrapper = input["wrapper"].as_u64()?;
     let calls = Arc::new(Mutex::new(vec![]));
     let mut context = Context::new();
     duckscriptsdk::load(&mut context.commands).ok()?;
     context.commands.set(Box::new(Record { name: "record".to_string(), calls: calls.clone(), output: Some("true".to_string()) })).ok()?;
-    let written: Vec<String> = args.iter().map(|a| quote(a)).collect();
+    let written: Vec<String> = args.iter().map(|a| quote(a).replace("${", "\\${")).collect();
     let call = format!("record {}", written.join(" "));
     let script = match wrapper {
         0 => format!("out = not {}", call),
